@@ -53,7 +53,9 @@ func genC01(t *rapid.T) clCase {
 	for i := 0; i < n; i++ {
 		var op clOp
 		switch rapid.SampledFrom([]string{"append", "append", "append", "append", "append", "appendset", "appendset",
-			"truncate", "truncate", "reopen", "sethw", "probe", "probe", "newreader", "read", "read", "sethw2"}).Draw(t, "op") {
+			"truncate", "truncate", "reopen", "sethw", "probe", "probe", "newreader", "read", "read", "sethw2", "parksplit"}).Draw(t, "op") {
+		case "parksplit":
+			op = clOp{Op: "parksplit", Msgs: genBatch(t, false, 3)}
 		case "newreader": // a long-lived committed reader, parked across later operations
 			op = clOp{Op: "newreader", Cls: rapid.IntRange(0, 5).Draw(t, "cls"), Sel: rapid.IntRange(0, 1000).Draw(t, "sel")}
 		case "read":
